@@ -1053,6 +1053,12 @@ def run(chk):
             chk.count("side-conditions", "multi_wf-evaluated")
             if v != 1:
                 chk.broken.append(("obligation", "side-condition:multi_wf", f"Pileup.multi_wf {c.ident} = false"))
+        # the premise of C06_mnp_component_counts (components are substitutions of the gene's reference base, inside the gene):
+        # a theorem premise, not a property of the code; counted so that the evidence says on how many genes it holds
+        ro = common.coq_eval(IMPORTS + ["PileupProofs", "PileupMnpTableProofs"], [f"o_bool (multi_ref_ok {c.ident})" for c in ctxs + ctxs_ind],
+                             preamble="".join(c.coq_def() for c in ctxs + ctxs_ind))
+        for c, v in zip(ctxs + ctxs_ind, ro):
+            chk.count("side-conditions", "multi_ref_ok-holds" if v == 1 else "multi_ref_ok-does-not-hold")
     corpus = os.path.join(common.VERIF, "corpus", "C06.json")
     if os.path.exists(corpus):
         for c in json.load(open(corpus)):
